@@ -29,7 +29,7 @@ def run(ck):
     for cfg in ASF:
         ck.mc_must_fail("MCTokGrammar", cfg, workers=8, timeout=900)
     exe = vlib.build("san", vlib.harness_sources(), "vh")
-    n = 1500 if thorough else 250
+    n = 8000 if thorough else 250
     tp = os.path.join(ck.dir, "v.ndjson")
     deaths = vlib.run_executions(exe, lambda st: ["tok", "inject-drive", st, n], n, tp, timeout=1200)
     vlib.conformance(ck, "V:extensions-injected-at-every-position", "TraceTokGrammar", "trace.cfg", tp, deaths, diag_of, min_events=n,
